@@ -21,6 +21,6 @@ def run(ctx, res):
     if m.ok and len(m.oks) == 1:
         framing.rule_n_pres(prog, res, m)
         framing.rule_d_len(prog, res, m)
-    dec = dispatch.decode_table(prog, res)
+    dec = dispatch.decode_table(prog, engine.Filtered(res, {"T-dec"}, ("number-source", "return-shape", "default-carries-number", "typed-arm", "empty-arm")))
     if dec:
         dispatch.parser_rule(prog, res, dec)
